@@ -360,6 +360,7 @@ type H struct {
 	focusCrash  map[string]int          // target -> number of its proposal invocations cut so far (scripted crash histories)
 	holdSucc    map[string]uint64       // target -> index: proposals of the target above that index are not scheduled yet
 	holdUntil   map[string]func() bool  // "target-index" of a proposal -> it is not scheduled until the predicate holds
+	cutCommits  int                     // crash histories: how many commit invocations may still be cut after their configuration write and held back behind their successor
 	txR         *txctl.Reconciler
 	propR       *propctl.Reconciler
 	cfgR        *cfgctl.Reconciler
@@ -868,6 +869,31 @@ func (h *H) reconcile(id recID, budget int) {
 			p.Status.Phases.Apply != nil && p.Status.Phases.Apply.State == configapi.ProposalApplyPhase_APPLYING {
 			budget = []int{2, 1, 3}[n%3]
 			h.focusCrash[id.a] = n + 1
+		}
+	}
+	// crash histories: the commit of a proposal is stopped right after its configuration write (the proposal is still
+	// COMMITTING, Committed.Index already names it) and the proposal is then left alone until its successor on the target has
+	// committed on top of it (or for a while): the resumed commit must not merge a second time, nor move a cursor back
+	if h.cutCommits > 0 && id.kind == "prop" && budget < 0 && h.nesting == 0 && h.r.Intn(3) == 0 {
+		ctx := context.Background()
+		if p, err := h.e.Props.Get(ctx, proposal.NewID(configapi.TargetID(id.a), configapi.Index(id.idx))); err == nil &&
+			p.Status.Phases.Commit != nil && p.Status.Phases.Commit.State == configapi.ProposalCommitPhase_COMMITTING &&
+			p.Status.Phases.Apply == nil && p.Status.Phases.Abort == nil {
+			if c, err := h.e.Cfgs.Get(ctx, configuration.NewID(p.TargetID, p.TargetType, p.TargetVersion)); err == nil &&
+				c.Status.Committed.Index == p.Status.PrevIndex {
+				budget = 1
+				h.cutCommits--
+				polls := 0
+				target, idx := p.TargetID, p.TransactionIndex
+				h.holdUntil[fmt.Sprintf("%s-%d", id.a, id.idx)] = func() bool {
+					polls++
+					if polls > 400 {
+						return true
+					}
+					c, err := h.e.Cfgs.Get(context.Background(), configuration.NewID(target, p.TargetType, p.TargetVersion))
+					return err == nil && c.Status.Committed.Index > idx
+				}
+			}
 		}
 	}
 	nested := h.nesting > 0
@@ -1682,6 +1708,7 @@ func runScenario(seed int64, n int, out *bufio.Writer, kind string, suffix strin
 	crashProb := 0
 	if kind == "crash" {
 		crashProb = 50
+		h.cutCommits = 2
 	}
 	// initially connect a random subset of the targets
 	for _, t := range h.targets {
